@@ -377,6 +377,39 @@ Definition is_caught_up (pl : pool) (waited : bool) : bool :=
     && ((p_max_peer_height pl =? 0) || (p_height pl >=? p_max_peer_height pl - 1))
   end.
 
+(* ---- the pool by itself: every BlockPool operation that touches pool.peers or
+   pool.maxPeerHeight, with the SetPeerRange rule as a parameter: [set_peer_range] is the code as
+   it is; [set_peer_range_fixed] is the repair proposed for finding F79 (SetPeerRange ends with
+   updateMaxPeerHeight(), fixes/F79-blockpool-max-peer-height-follows-peers.diff) *)
+Definition set_peer_range_fixed (pl : pool) (p : peer) (base height : Z) : pool :=
+  let pl' := set_peer_range pl p base height in
+  {| p_height := p_height pl'; p_reqs := p_reqs pl'; p_peers := p_peers pl';
+     p_max_peer_height := max_height (p_peers pl');            (* updateMaxPeerHeight *)
+     p_num_pending := p_num_pending pl'; p_errors := p_errors pl' |}.
+
+Inductive plop :=
+| PL_status (p : peer) (base height : Z)   (* SetPeerRange *)
+| PL_make                                  (* makeNextRequester behind its guards *)
+| PL_pick (h : Z) (p : peer)               (* requester h obtained p from pickIncrAvailablePeer *)
+| PL_block (p : peer) (b : block)          (* AddBlock *)
+| PL_remove (p : peer)                     (* RemovePeer (disconnect, timeout, StopPeerForError) *)
+| PL_redo (h : Z)                          (* RedoRequest *)
+| PL_pop.                                  (* PopRequest *)
+
+Definition pool_step (spr : pool -> peer -> Z -> Z -> pool) (pl : pool) (o : plop) : pool :=
+  match o with
+  | PL_status p base height => spr pl p base height
+  | PL_make => make_next_requester pl
+  | PL_pick h p => assign pl h p
+  | PL_block p b => add_block pl p b
+  | PL_remove p => remove_peer pl p
+  | PL_redo h => match redo_request pl h with Some (pl', _) => pl' | None => pl end
+  | PL_pop => match pop_request pl with Some pl' => pl' | None => pl end
+  end.
+
+Definition pool_run (spr : pool -> peer -> Z -> Z -> pool) (ops : list plop) (pl : pool) : pool :=
+  fold_left (pool_step spr) ops pl.
+
 (* ================================================================== the node *)
 
 Inductive event :=
@@ -645,3 +678,6 @@ Arguments stop_peer {sig}. Arguments with_pool {sig}. Arguments panic {sig}. Arg
 Arguments process_step {sig}. Arguments reject_step {sig}. Arguments next_state {sig}. Arguments step {sig}. Arguments run {sig}. Arguments handover {sig}.
 Arguments reconstruct_vs {sig}. Arguments cs_reconstruct {sig}. Arguments reconstruct_if_needed {sig}.
 Arguments new_state {sig}. Arguments switch_to_consensus {sig}. Arguments handover_full {sig}.
+Arguments set_peer_range_fixed {sig}. Arguments pool_step {sig}. Arguments pool_run {sig}.
+Arguments PL_status {sig}. Arguments PL_make {sig}. Arguments PL_pick {sig}. Arguments PL_block {sig}.
+Arguments PL_remove {sig}. Arguments PL_redo {sig}. Arguments PL_pop {sig}.
